@@ -99,9 +99,12 @@ func GenCase(r *vh.Rng, flavor string) Case {
 		live[id] = true
 	}
 	fieldQuery := map[string]int{"a": 0, "s": 1, "items": 2, "obj": 3, "flag": 7}
-	stale := -1
+	stale, blocked := -1, -1
 	if r.Chance(15) {
 		stale = r.Intn(n)
+	}
+	if r.Chance(12) {
+		blocked = r.Intn(n)
 	}
 	for i := 0; i < n; i++ {
 		if i == stale {
@@ -127,6 +130,35 @@ func GenCase(r *vh.Rng, flavor string) Case {
 				c.Ops = append(c.Ops, Op{Op: "mutate", ID: id, Q: r.Intn(FirstBadMutQuery), Sync: "handled"})
 			}
 			c.Ops = append(c.Ops, Op{Op: "release", ID: id, Sync: "settle"})
+		}
+		if i == blocked {
+			// an in-flight computation (resolver held until its context is cancelled) meets an unsubscribe,
+			// a mutation with the same id, a context cancellation or the socket closing
+			id := IDPool[r.Intn(3)]
+			f := Fields[r.Intn(len(Fields))]
+			c.Ops = append(c.Ops, Op{Op: "unsubscribe", ID: id, Sync: "settle"})
+			if r.Bool() {
+				c.Ops = append(c.Ops, Op{Op: "subscribe", ID: id, Q: fieldQuery[f], Sync: "settle"},
+					Op{Op: "fail", Field: f, N: 1, Mode: "block", Sync: "none"})
+			} else {
+				c.Ops = append(c.Ops, Op{Op: "fail", Field: f, N: 1, Mode: "block", Sync: "none"},
+					Op{Op: "subscribe", ID: id, Q: fieldQuery[f], Sync: "none"})
+			}
+			live[id] = true
+			c.Ops = append(c.Ops, Op{Op: "awaitblock"})
+			switch j := r.Intn(10); {
+			case j < 5:
+				c.Ops = append(c.Ops, Op{Op: "unsubscribe", ID: id, Sync: "settle"})
+				delete(live, id)
+			case j < 7:
+				c.Ops = append(c.Ops, Op{Op: "mutate", ID: id, Q: r.Intn(FirstBadMutQuery), Sync: "none"},
+					Op{Op: "unsubscribe", ID: id, Sync: "settle"})
+				delete(live, id)
+			case j < 9:
+				c.Ops = append(c.Ops, Op{Op: "cancel", Sync: "settle"})
+			default:
+				c.Ops = append(c.Ops, Op{Op: "close"})
+			}
 		}
 		k := r.Intn(100)
 		switch {
